@@ -83,6 +83,7 @@ from concurrent.futures import ThreadPoolExecutor
 
 import core
 import changelog_common as cc
+import changelog_faults as cf
 
 MANIFEST = dict(
     technique="TLA+ spec Changelog (five-state parser automaton with incremental outputs + formatter as inverse operator + deb-changelog(5) generator automaton in lock-step) model-checked by TLC over all bounded well-formed texts; every TLC case replayed with grammar-driven concretizations into Changelog(text, strict=True); prefix-closure traces of random well-formed changelogs validated by TLC (TraceChangelog) on independently classified lines",
@@ -149,7 +150,10 @@ def replay_stress(ctx, rng, case, mode, big):
 
 def replay_case(ctx, rng, case, k, key, canonical_first, alive=None, ci=0, mut_every=5):
     """k concretizations.  canonical_first: the first one is the canonical minimal form; otherwise the
-    canonical form is only tried after a failure, to attribute it to structure or to payload"""
+    canonical form is only tried after a failure, to attribute it to structure or to payload.
+    One concretization of every third case is parsed right AFTER a fault step: a faulting
+    input (changelog_faults) was parsed by another object or, every fourth time, by the object that then parses
+    the text under test"""
     classes = case["t"]
     struct = case["doc"]
     nontrivial = len(struct["bl"]) > 0
@@ -159,18 +163,50 @@ def replay_case(ctx, rng, case, k, key, canonical_first, alive=None, ci=0, mut_e
         # the text arrives in every documented input form in turn; every 5th case (thorough: 25th) the Version objects handed
         # out are edited in place afterwards and the text is parsed again
         form = cc.FORMS[(ci + j) % len(cc.FORMS)]
+        fault = None
+        if ci % 3 == 1 and j == min(1, k - 1):
+            fault = dict(cf.fault_plan(rng), same=(ci % 4 == 3))
         msg = cc.c04_check(lines, contents, struct, alive if j == k - 1 else None, form=form,
-                           mutate=(ci + j) if (ci % mut_every == 0 and j == k - 1) else None)
+                           mutate=(ci + j) if (ci % mut_every == 0 and j == k - 1) else None, fault=fault)
         ctx.case_seen(key, nontrivial)
         if msg:
             if not canonical:
                 cl, cc_ = cc.conc_text(rng, classes, canonical=True, empty_blank=True)
-                m2 = cc.c04_check(cl, cc_, struct, form=form, mutate=(ci + j) if ci % mut_every == 0 else None)
+                m2 = cc.c04_check(cl, cc_, struct, form=form, mutate=(ci + j) if ci % mut_every == 0 else None, fault=fault)
                 msg += " [canonical concretization of the same structure: %s]" % ("fails too: " + m2 if m2 else "passes, so the payload matters")
             ctx.violation({"kind": "case", "classes": classes, "lines": lines, "contents": contents, "struct": struct, "form": form,
-                           "mutate": (ci + j) if (ci % mut_every == 0 and j == k - 1) else None}, msg)
+                           "mutate": (ci + j) if (ci % mut_every == 0 and j == k - 1) else None, "fault": fault}, msg)
             return False
     return True
+
+
+def replay_reuse(ctx, rng, cases, every):
+    """Mode "reuse": every `every`-th CASE of TLC (complete well-formed text x rs.pf x rs.f2 x rs.carry) is replayed:
+    the object under test parsed a text with (pf) / without a final newline before; the previous parse of the process
+    -- by that object or by another one -- ended as rs.carry says; then the text arrives in a form of the class
+    rs.f2 and must show what TLC computed.  Every carry x f2 combination is drawn.  -> number replayed"""
+    n = 0
+    per = {}
+    for ci, c in enumerate(cases):
+        key = (c["carry"], c["f2"], c["pf"])
+        per[key] = per.get(key, 0) + 1
+        if per[key] % every != 1 % every:
+            continue
+        lines, contents = cc.conc_text(rng, c["t"], canonical=(n % 3 == 0), empty_blank=True)
+        forms = cf.F2_FORMS[c["f2"]]
+        form = forms[(n // 7 + per[key]) % len(forms)]
+        fault = None
+        if c["carry"] != "none":
+            fault = dict(cf.fault_plan(rng, kind=c["carry"]), same=(per[key] % 2 == 0))
+        msg = cc.c04_check(lines, contents, c["doc"], form=form, fault=fault, reuse={"pf": c["pf"]})
+        ctx.case_seen(("reuse", "".join(x[0] for x in c["t"]), c["carry"], c["f2"], c["pf"]), True)
+        n += 1
+        if msg:
+            ctx.violation({"kind": "case", "classes": c["t"], "lines": lines, "contents": contents, "struct": c["doc"], "form": form,
+                           "fault": fault, "reuse": {"pf": c["pf"]}}, msg)
+            if len(ctx.violations) >= 5:
+                break
+    return n
 
 
 def run(ctx):
@@ -188,7 +224,10 @@ def run(ctx):
     traces = []
     for i in range(ntr):
         _cls, lines, _ = cc.gen_wellformed(rng, rng.choice([6, 12, 25, maxlines]))
-        traces.append(cc.record_parse_trace(lines, aea=bool(i % 5 == 0), wf=True, doc_every=7, form=cc.FORMS[i % len(cc.FORMS)]))
+        faults = None
+        if i % 3 == 1:          # a faulting input is parsed by another object before the parses of one or two prefixes
+            faults = {str(rng.randint(1, len(lines))): cf.fault_plan(rng) for _ in range(rng.choice([1, 2]))}
+        traces.append(cc.record_parse_trace(lines, aea=bool(i % 5 == 0), wf=True, doc_every=7, form=cc.FORMS[i % len(cc.FORMS)], faults=faults))
     # formatting histories on well-formed changelogs: calls on any block through the block object, in-place
     # container edits, str(block); the changelog is formatted after some calls only (C04 domain: wf = True)
     for i in range(ntr // 2):
@@ -207,11 +246,13 @@ def run(ctx):
         f_hist = [ex.submit(ctx.tlc_must_hold, "Changelog", h, workers=2 if quick else 6, want_tags={"CASE"}, java_opts=cc.jopts(ctx)) for h in hjobs]
         f_neg = [ex.submit(neg_control, ctx, bug, want) for bug, want in NEG_CONTROLS]
         f_hneg = [ex.submit(hist_neg_control, ctx, bug, want) for bug, want in cc.HIST_NEG]
-        f_reuse = ex.submit(cc.reuse_controls, ctx)
+        f_reuse = ex.submit(cc.reuse_controls, ctx, hold=not quick)
+        f_rcases = ex.submit(cc.reuse_cases, ctx)
         r = f_bnd.result()
         r_hist = [f.result() for f in f_hist]
         ctx.extra["spec_negative_controls"] = {bug: f.result() for (bug, _), f in zip(NEG_CONTROLS + cc.HIST_NEG, f_neg + f_hneg)}
         ctx.extra["spec_negative_controls"].update(f_reuse.result())
+        rcases, rstates = f_rcases.result()
     ctx.tlc_runs.sort(key=lambda x: (-x["distinct"], str(x["violated"])))
     cases = [c for c in r.printed.get("CASE", []) if isinstance(c, dict)]
     if f_bnd2 is not None:          # thorough: 3 blocks with <= 1 separating blank line + 2 blocks with <= 2
@@ -255,6 +296,15 @@ def run(ctx):
     ctx.extra["cases_replayed"] = n
     ctx.extra["size_stressed_concretizations"] = nstress
 
+    # (a'') a parse depends on nothing but its own input: used objects, faults of caller-supplied inputs before
+    rcases.sort(key=lambda c: (len(c["t"]), c["t"], c["carry"], c["f2"], c["pf"]))
+    nr = replay_reuse(ctx, rng, rcases, every=7 if quick else 1)
+    ctx.extra["reuse_histories"] = {"states": rstates, "cases": len(rcases), "replayed": nr}
+    n += nr
+    m = alive.recheck()
+    if m:
+        ctx.violation({"kind": "alive", "note": m}, m)
+
     # (a') formatting as part of the history
     hcases = []
     for rh in r_hist:
@@ -294,6 +344,7 @@ def run(ctx):
     ctx.extra["trace_lines"] = sum(len(t["lines"]) for t in traces if t["kind"] == "parse")
     ctx.extra["history_trace_calls"] = sum(len(t["ops"]) for t in traces if t["kind"] == "edit")
     ctx.extra["traces_rejected"] = len(viol)
+    ctx.extra["fault_steps"] = cf.stats()           # what came out of the faulted parses (never judged)
     ctx.extra["traces_drifting"] = len(drift)
     for i in drift[:10]:
         ctx.drift("well-formed %s trace %d: diagnostic mismatch at event %d" % (traces[i - 1]["kind"], i, info.get(i, 0) + 1))
@@ -310,7 +361,8 @@ def run(ctx):
                               at + 1, [t["calls"][at][k] for k in ("op", "i", "x")] if at < len(t["calls"]) else None,
                               "the formatted text is not the text of the current document / not a normal form" if ev and ev.get("ok") else "unexpected exception"))
             continue
-        ctx.violation({"kind": "trace", "trace": {"kind": "parse", "text": t["text"], "aea": t["aea"], "wf": True, "iform": t["iform"]},
+        ctx.violation({"kind": "trace", "trace": {"kind": "parse", "text": t["text"], "aea": t["aea"], "wf": True, "iform": t["iform"],
+                                                  "faults": t.get("faults") or {}},
                        "first_unexplained_line": at + 1},
                       "well-formed changelog: observation after line %d (%r) not explained by the specification: %s"
                       % (at + 1, t["text"][at] if at < len(t["text"]) else None,
@@ -325,7 +377,8 @@ def replay(ctx, case):
         for c in contents:
             if isinstance(c, dict):
                 c["pairs"] = [tuple(p) for p in c["pairs"]]
-        return cc.c04_check(case["lines"], contents, case["struct"], form=case.get("form", "str"), mutate=case.get("mutate"))
+        return cc.c04_check(case["lines"], contents, case["struct"], form=case.get("form", "str"), mutate=case.get("mutate"),
+                            fault=case.get("fault"), reuse=case.get("reuse"))
     if case["kind"] == "hist":
         return cc.run_hist(dict(case, contents=cc.norm_contents(case["contents"]), tail_contents=cc.norm_contents(case.get("tail_contents", []))), c04=True)
     if case["kind"] == "alive":
